@@ -343,7 +343,7 @@ func (p *Parser) parseExpressionNested(precedence ast.Priority) ast.Node {
 	}
 	prefix := p.prefixParseFns[p.curToken.Type()]
 	if prefix == nil {
-		if p.curToken.Type() == token.RPAREN && p.prevToken.Type() == token.LPAREN && p.peekTokenIs(token.EOL) {
+		if p.curToken.Type() == token.RPAREN && p.prevToken != nil && p.prevToken.Type() == token.LPAREN && p.peekTokenIs(token.EOL) {
 			// `()` at the end of a line: the `=>` of a lambda without parameters may follow on the next line.
 			p.continuationNeeded = true
 			return nil
